@@ -504,8 +504,10 @@ def parents(node: ast.AST) -> Iterator[ast.AST]:
 
 
 def own_nodes(func_node: ast.AST) -> Iterator[ast.AST]:
-    """All nodes of a function body excluding nested function/class/lambda bodies."""
-    todo = list(ast.iter_child_nodes(func_node))
+    """All nodes of a function body excluding nested function/class/lambda bodies (and the
+    function's own decorators, which are evaluated in the enclosing scope)."""
+    decos = set(id(d) for d in getattr(func_node, "decorator_list", []))
+    todo = [c for c in ast.iter_child_nodes(func_node) if id(c) not in decos]
     while todo:
         n = todo.pop()
         yield n
